@@ -380,8 +380,12 @@ pub fn suite_seg_domains(cfg: &Cfg, rep: &mut Report) {
     };
     let max_len = cfg.num("grid_len", 80);
     let max_lo = cfg.num("grid_lo", 70);
+    // `parts` selects the sections of the grid (Miri runs a thinned grid): g = small i32 grid,
+    // s = i8/u8 corners, p = powers of two, w = 64-bit; kstep thins the exponents
+    let parts = cfg.str_or("parts", "gspw").to_string();
+    let kstep = cfg.num("kstep", 1).max(1) as u32;
     // grid: all (lo, len) with len 1..=max_len, lo in -max_lo..=max_lo, as i32 domains
-    for len in 1..=max_len {
+    for len in (1..=max_len).filter(|_| parts.contains('g')) {
         for lo in -max_lo..=max_lo {
             if mine(&mut n) {
                 domain_case::<i32>(rep, lo, lo + len - 1, n);
@@ -389,7 +393,7 @@ pub fn suite_seg_domains(cfg: &Cfg, rep: &mut Report) {
         }
     }
     // small types, exhaustively interesting corners
-    for len in 1..=64i64 {
+    for len in (1..=64i64).filter(|_| parts.contains('s')) {
         for lo in [-128i64, -64, -1, 0, 127 - len + 1] {
             if lo >= -128 && lo + len - 1 <= 127 && mine(&mut n) {
                 domain_case::<i8>(rep, lo, lo + len - 1, n);
@@ -401,14 +405,14 @@ pub fn suite_seg_domains(cfg: &Cfg, rep: &mut Report) {
             }
         }
     }
-    if mine(&mut n) {
+    if parts.contains('s') && mine(&mut n) {
         domain_case::<i8>(rep, -128, 127, n);
     }
-    if mine(&mut n) {
+    if parts.contains('s') && mine(&mut n) {
         domain_case::<u8>(rep, 0, 255, n);
     }
     // powers of two and their neighbours at several origins, per coordinate type
-    for k in 4..=32u32 {
+    for k in (4..=32u32).filter(|k| parts.contains('p') && (k - 4) % kstep == 0) {
         for dl in [-1i64, 0, 1] {
             let len = (1i64 << k) + dl;
             if len < 1 {
@@ -432,14 +436,14 @@ pub fn suite_seg_domains(cfg: &Cfg, rep: &mut Report) {
             }
         }
     }
-    if mine(&mut n) {
+    if parts.contains('p') && mine(&mut n) {
         domain_case::<u32>(rep, 0, u32::MAX as i64, n);
     }
-    if mine(&mut n) {
+    if parts.contains('p') && mine(&mut n) {
         domain_case::<i32>(rep, i32::MIN as i64, i32::MAX as i64, n);
     }
     // 64-bit domains whose length fits in i64
-    for k in [33u32, 40, 47, 48, 55, 62] {
+    for k in [33u32, 40, 47, 48, 55, 62].into_iter().filter(|_| parts.contains('w')) {
         for dl in [-1i64, 0, 1] {
             let len = (1i64 << k) + dl;
             for lo in [0i64, -(len / 2), i64::MIN / 2, i64::MAX - len + 1] {
@@ -449,11 +453,11 @@ pub fn suite_seg_domains(cfg: &Cfg, rep: &mut Report) {
             }
         }
     }
-    if mine(&mut n) {
+    if parts.contains('w') && mine(&mut n) {
         domain_case::<i64>(rep, 0, i64::MAX - 1, n);
     }
     rep.histories = rep.counters.get("domains_built") + rep.counters.get("domains_refused_as_required");
-    rep.exhaustive = Some(true);
+    rep.exhaustive = Some(parts == "gspw" && kstep == 1);
     rep.sample(J::obj(vec![
         ("grid", J::s(format!("all i32 domains with len 1..={} and lo -{}..={}; i8/u8 corners; 2^k-1,2^k,2^k+1 for k=4..32 at 5 origins in i16/u16/i32/u32; i64 up to 2^62+1", max_len, max_lo, max_lo))),
         ("per_domain", J::s("point insert at lo, hi, both sides of each of the 31 bucket edges (every coordinate when len <= 96): stored place must be 31 + ((x-lo) >> s); point queries; whole-domain query")),
